@@ -62,9 +62,11 @@ EPS_AXIS = [1e-4, 1e-6, 1e-8, 1e-10]
 REF_EPS = 1e-11
 STEP = 0.02  # Angstrom per path step
 
-# K_obs: measured on the healthy tree (max over the thorough exploration, KSA excluded):
-# see evidence `healthy_margin`; >= 10 x head-room
-K = {"Etot": 10.0, "q": 500.0, "e_mo": 500.0, "force": 5000.0}
+# K_obs x t / (1 - a) bounds every observable; the evidence file records the largest measured ratio (`healthy_margin_ratio_to_t`)
+K = {"Etot": 10.0, "q": 500.0, "e_mo": 2000.0, "force": 5000.0}
+# measured (thorough, seed 0, 12.4k non-KSA solves): Etot 1.19, q 52, e_mo 215, force 387 (ratios to t/(1-a)); an orbital
+# energy is first order in the density residual with a slope of the order of the two-electron integrals (10-20 eV), so
+# K_e_mo ~ 15 x the density-residual constant of C03
 
 
 def geometry(name, k, seed):
@@ -105,7 +107,7 @@ def solve(task):
         params = sp.make_params("AM1", "adaptive", REF_EPS)
     else:
         params = _params(cfg, task["eps"])
-    t0 = time.time()
+    t0 = time.process_time()
     molecule, es = sp.build(geometry(task["mol"], task["g"], task["seed"]), params)
     molecule.verbose = False
     P = _to_layout(task.get("P"), uhf)
@@ -126,7 +128,7 @@ def solve(task):
     o = sp.observe(molecule, es, ["Etot", "force", "q", "e_mo", "e_gap", "dm"])
     out.update(o)
     out["nc"] = bool(np.asarray(o["notconverged"]).any())
-    out["t"] = time.time() - t0
+    out["t"] = time.process_time() - t0
     return out
 
 
@@ -204,6 +206,7 @@ def _judge(chk, task, out, refs, margins, tally):
             f"{k}: valid solve raised {out['exc']}: {out['msg']}", replay=_replay_payload(task),
         )  # fmt: skip
         return None
+    margins["_cpu"] = margins.get("_cpu", 0.0) + out.get("t", 0.0)
     if out["nc"]:
         chk.excluded += 1
         chk.case(k, nontrivial=False, outcome="notconverged")
@@ -213,7 +216,9 @@ def _judge(chk, task, out, refs, margins, tally):
     chk.traces += 1
     if CFGS[task["cfg"]][0] != "ksa":
         for n, v in ratios.items():
-            margins[n] = max(margins.get(n, 0.0), v)
+            if v > margins.get(n, 0.0):
+                margins[n] = v
+                tally[f"_argmax_{n}"] = k
     tally[task["cfg"]] = tally.get(task["cfg"], 0) + 1
     chk.case(k, nontrivial=True, outcome=(task["cfg"], tuple(sorted(b[0] for b in bad))))
     for name, err, tol in bad:
@@ -293,7 +298,9 @@ def run(chk, tier, seed):
     chk.extra["depth"] = depth
     chk.extra["solver_configurations"] = cfgs
     chk.extra["reference_solves"] = len(ref_tasks)
+    chk.extra["healthy_margin_worst_case"] = {k[8:]: tally.pop(k) for k in [x for x in tally if x.startswith("_argmax_")]}
     chk.extra["solves_compared_per_configuration"] = tally
+    chk.extra["cpu_s_in_calls"] = round(margins.pop("_cpu", 0.0), 1)
     chk.extra["healthy_margin_ratio_to_t"] = {k: float(f"{v:.4g}") for k, v in margins.items()}
     chk.extra["K_obs"] = K
 
